@@ -77,12 +77,27 @@ pub fn cases(ctx: &Ctx) -> Vec<Case> {
             }
         }
     }
+    // two consecutive flushes an exact multiple of a block / of a chunk apart (a content block is a 17-byte
+    // header + the piece): a writer that decides from the offset inside the current block / chunk whether
+    // anything is pending sees the same offset twice
+    for layers in LAYER_COMBOS {
+        for data in [DataKind::Random, DataKind::Constant(0x63)] {
+            let level = if matches!(data, DataKind::Random) { 1 } else { 5 };
+            for (i, gap) in [Sz::new(1, 0, -17), Sz::new(2, 0, -17), Sz::new(0, 1, -17), Sz::new(0, 3, -17)].into_iter().enumerate() {
+                if k.is_prod() && ctx.quick() && gap.b > 1 {
+                    continue;
+                }
+                v.push(Case { prog: flush_after_each(layers, level, data, &[Sz::new(0, 0, 100), gap, Sz::lit(40)], ctx.seed ^ 0xF1F1 ^ i as u64) });
+                v.push(Case { prog: flush_after_each(layers, level, data, &[Sz::new(0, 1, 9), gap, gap, Sz::lit(7)], ctx.seed ^ 0xF2F2 ^ i as u64) });
+            }
+        }
+    }
     // random programs with flushes between calls
     let n = match (k.is_prod(), ctx.quick()) {
         (false, true) => 4000,
-        (false, false) => 60000,
+        (false, false) => 150000,
         (true, true) => 480,
-        (true, false) => 8000,
+        (true, false) => 30000,
     };
     let mut sizes = crate::gen::small_sizes();
     sizes.extend([Sz::new(0, 1, -17), Sz::new(0, 1, 0), Sz::new(0, 2, 5)]);
